@@ -73,7 +73,7 @@ impl<'a> D<'a> {
         for _ in 0..ind {
             self.out.push_str("  ");
         }
-        self.out.push_str(s);
+        self.out.push_str(&s.replace('\n', "\\n").replace('\r', "\\r"));
         self.out.push('\n');
     }
     fn common(&self, c: &Option<CommonContent>) -> String {
